@@ -63,7 +63,9 @@ type ClientCfg struct {
 	BindIP [4]byte `json:"bind_ip"`
 	// BindNoIP: the bind address has a port but no IP address at all (netip.AddrPortFrom(netip.Addr{}, port) - what a
 	// configuration that only names the port yields); sockets bind to <any>:port
-	BindNoIP      bool        `json:"bind_without_ip,omitempty"`
+	BindNoIP bool `json:"bind_without_ip,omitempty"`
+	// NoBind: no bind address at all (the zero types.BindAddr{}): the library falls back to <any>:0
+	NoBind        bool        `json:"no_bind_address,omitempty"`
 	BindPort      uint16      `json:"bind_port"`
 	HasBroadcast  bool        `json:"has_broadcast"`
 	BroadcastIP   [4]byte     `json:"broadcast_ip"`
@@ -109,6 +111,9 @@ func (c ClientCfg) addrs() (types.BindAddr, types.BroadcastAddr, types.ListenAdd
 	bind := types.BindAddrFrom(netip.AddrFrom4(c.BindIP), c.BindPort)
 	if c.BindNoIP {
 		bind = types.BindAddrFrom(netip.Addr{}, c.BindPort)
+	}
+	if c.NoBind {
+		bind = types.BindAddr{}
 	}
 	bcast := types.BroadcastAddr{}
 	if c.HasBroadcast {
